@@ -680,12 +680,36 @@ class Hist(Scenario):
             return self.finish_in_progress("merge")
         return "done"
 
+    def begin_undoable(self):
+        """Called before the edits of commits that a later soft / mixed reset will un-do. Finding D58: when the un-done commits (or
+        the pending work) delete or replace lines below which an earlier, kept commit has AI lines, the reconstruction after the
+        reset credits a person's lines to that earlier session; while it is open such commits only insert lines."""
+        if not self.profile.get("reset_over_removed_lines", True):
+            self.force_kinds = ["ins"]
+
+    def removes_lines(self, *revs):
+        out = self.w.ogit("diff", "--numstat", "--no-renames", *revs)
+        for ln in out.splitlines():
+            parts = ln.split("\t")
+            if len(parts) >= 2 and parts[1] not in ("0", "-"):
+                return True
+        return False
+
     def op_reset(self, mode=None, recommit=True):
         if self.ncommits() < 2:
+            self.force_kinds = None
             return
         mode = mode or self.rng.choice(["--soft", "--mixed", "--hard"])
         self.report_human_edits()
         n = 1 if self.ncommits() < 3 else self.rng.choice([1, 1, 2])
+        if mode != "--hard" and not self.profile.get("reset_over_removed_lines", True):
+            # finding D58 (see begin_undoable): only un-do ranges, and carry pending work, that do not remove lines
+            if n == 2 and self.removes_lines("HEAD~2", "HEAD"):
+                n = 1
+            if self.removes_lines("HEAD~%d" % n):
+                mode = "--hard"
+                self.stats["reset_turned_hard_D58"] += 1
+        self.force_kinds = None
         self.g("reset", "-q", mode, "HEAD~%d" % n)
         self.ops.append("reset:" + mode)
 
@@ -740,6 +764,10 @@ class Hist(Scenario):
                          "checkout-f-away", "reset-hard-back"])
         if ch in ("stash-drop", "stash-clear") and not self.profile.get("stash_discard_with_initial_pending", True) and self.pending_initial_files():
             ch = "reset-hard"   # finding D36: stash push + drop/clear while INITIAL-only claims are pending leaves them behind
+        if ch in ("restore", "restore-staged", "restore-source") and not self.profile.get("restore_with_initial_pending", True) and f in self.pending_initial_files():
+            ch = "checkout-path"   # finding D55: `git restore` is not handled at all; the handled spelling of the same discard is `git checkout -- <path>`
+        if ch == "reset-path" and f.startswith("-") and not self.profile.get("reset_path_dash_name", True):
+            ch = "reset-hard"      # finding D56
         if ch == "reset-hard":
             self.g("reset", "-q", "--hard", rng.choice(["HEAD", "HEAD", "HEAD~1"]) if self.ncommits() > 1 else "HEAD")
         elif ch == "checkout-path":
